@@ -460,6 +460,42 @@ def all_fixed(T):
   return all(lo == hi for _, L in tg.leaf_list(T) for lo, hi in L['bounds'])
 
 
+DOC_CLASSES = ('Device', 'CDevice', 'IDevice', 'IDevice2', 'CDevice2', 'PVDevice', 'GDevice', 'SDevice', 'ADevice')
+
+
+def doc_infeasible(T):
+  """whether the only flow within bounds of an all-fixed tree violates a documented hard constraint (leaf constraints as C03 states
+  them, per-slot sbounds of every set), computed from the description alone; None when the tree has a unit this does not cover."""
+  import c03
+  tol = F(1, 10**6)
+
+  def walk(t):
+    if t['kind'] == 'leaf':
+      L = t['leaf']
+      if L['cls'] not in DOC_CLASSES:
+        return None
+      x = [lo for lo, _ in L['bounds']]
+      ineq, eq = c03.margin(L, x)
+      return [x], (ineq < -tol or eq > tol)
+    if t['kind'] != 'set':
+      return None
+    rws, bad = [], False
+    for k in t['kids']:
+      r = walk(k)
+      if r is None:
+        return None
+      rws += r[0]
+      bad = bad or r[1]
+    if t.get('sbounds'):
+      for i, (lo, hi) in enumerate(t['sbounds']):
+        tot = sum((r[i] for r in rws), F(0))
+        if tot < lo - tol or tot > hi + tol:
+          bad = True
+    return rws, bad
+  r = walk(T)
+  return None if r is None else r[1]
+
+
 def oracle_fault(c):
   """the property under fault injection: no success reported -> OptimizationException; success -> the reported point in the
   device shape (or an exception for a malformed one); never something else"""
@@ -467,8 +503,10 @@ def oracle_fault(c):
   out = o['out']
   if not o['called']:
     if all_fixed(c['t']):
-      dev = tg.build_tree(c['t'])
-      bad = cc.nonlinear_residual(np.array(dev.lbounds, dtype=float), dev) > FEAS_TOL
+      bad = doc_infeasible(c['t'])
+      if bad is None:
+        dev = tg.build_tree(c['t'])
+        bad = cc.nonlinear_residual(np.array(dev.lbounds, dtype=float), dev) > FEAS_TOL
       if bad:
         return None if out == 'opt' else 'the only flow within bounds violates a constraint and solve did not raise OptimizationException'
       return None if isinstance(out, tuple) else 'every slot is fixed (and feasible) but solve raised'
